@@ -39,6 +39,8 @@ class Res:
     labels: tuple = ()
     fails: list = field(default_factory=list)
     tags: dict = field(default_factory=dict)  # classification of the case (for known findings)
+    evals: int = 1  # executions against the oracle performed by this body call
+    keys: Optional[list] = None  # several distinct non-trivial identities produced by one body call
 
     def fail(self, kind, detail=None, **tags):
         t = dict(self.tags)
@@ -58,6 +60,7 @@ class Sub:
     exhaustive: bool = False  # enumeration covers its space completely
     pretags: Optional[Callable] = None  # case -> tags, evaluated before the body
     size: Optional[Callable] = None  # case -> number (smaller = simpler); default len(json)
+    expand: Optional[Callable] = None  # compact enumerated case -> full case (called only for the shard's own cases)
     raising_is_failure: bool = True  # an exception out of torchtree inside the body = violation
     shrink_s: float = 25.0
 
@@ -230,13 +233,21 @@ class Stats:
                     self.excluded_known += 1
                     return None
         res = eval_case(sub, case)
-        self.evaluations += 1
-        if res.nontrivial:
+        self.evaluations += max(1, int(res.evals))
+        if res.keys is not None:
+            self.nontrivial.update(h64(k) for k in res.keys)
+            if res.keys and len(self.nt_samples) < 2:
+                self.nt_samples.append(case)
+        elif res.nontrivial:
             self.nontrivial.add(h64(res.key if res.key is not None else case))
             if len(self.nt_samples) < 2:
                 self.nt_samples.append(case)
-        for lab in res.labels:
-            self.labels[lab] += 1
+        if isinstance(res.labels, dict):
+            for lab, cnt in res.labels.items():
+                self.labels[lab] += int(cnt)
+        else:
+            for lab in res.labels:
+                self.labels[lab] += 1
         if len(self.samples) < 2:
             self.samples.append(case)
         unknown = []
@@ -338,6 +349,8 @@ def run_unit(args):
                 if time.time() - t0 > budget_s:
                     st.stopped_early = True
                     break
+                if sub.expand is not None:
+                    case = sub.expand(case)
                 st.run(case)
         if sub.strategy is not None:
             from hypothesis import given, seed as hseed
